@@ -2,6 +2,7 @@ package scen
 
 import (
 	"fmt"
+	"os"
 	"runtime/debug"
 	"sort"
 	"strings"
@@ -491,9 +492,12 @@ func Outcome(res *sched.Result, o *Obs) string {
 	return s
 }
 
+// Strict makes handler panics violations (VERIF_C25_STRICT=1).
+var Strict = os.Getenv("VERIF_C25_STRICT") == "1"
+
 // Violation is what the oracle found in one execution.
 type Violation struct {
-	Kind      string `json:"kind"` // panic | deadlock | divergence | fatal
+	Kind      string `json:"kind"` // panic | deadlock | divergence | fatal | handler-panic (warning only)
 	Signature string `json:"signature"`
 	Detail    string `json:"detail"`
 }
@@ -509,9 +513,17 @@ func (in *Instance) Judge(res *sched.Result, o *Obs) []Violation {
 		return strings.Join(n, "/")
 	}
 	if res != nil && res.Deadlock != nil {
-		sites := append([]string{}, res.Deadlock.Sites...)
-		sort.Strings(sites)
-		out = append(out, Violation{Kind: "deadlock", Signature: "deadlock|" + strings.Join(funcsOf(sites), "|"),
+		sig := ""
+		if len(res.Deadlock.Recursive) > 0 {
+			// a recursive read lock with a writer in between: one defect whichever writer it was
+			rc := res.Deadlock.Recursive[0]
+			sig = "deadlock|recursive-read-lock|" + funcOfSite(rc[0]) + "|" + funcOfSite(rc[1])
+		} else {
+			sites := funcsOf(res.Deadlock.Sites)
+			sort.Strings(sites)
+			sig = "deadlock|" + strings.Join(sites, "|")
+		}
+		out = append(out, Violation{Kind: "deadlock", Signature: sig,
 			Detail: "no enabled thread while some are unfinished:\n  " + strings.Join(res.Deadlock.Waiting, "\n  ")})
 		return out
 	}
@@ -524,11 +536,20 @@ func (in *Instance) Judge(res *sched.Result, o *Obs) []Violation {
 			out = append(out, Violation{Kind: "panic", Signature: "panic|harness-thread|" + p.Thread, Detail: p.Value + "\n" + p.Stack})
 		}
 	}
+	// A panic inside a handler goroutine is recovered by the gRPC recovery interceptor of the real
+	// server (api/v2/v2.go: grpc_recovery.UnaryServerInterceptor) and answered with codes.Internal:
+	// the node survives. It is therefore a warning ("handler-panic"), not a C25 violation, unless
+	// VERIF_C25_STRICT=1. What such a panic leaves behind (a lock still held, a half-written cache)
+	// is judged by the rest of the execution: deadlock / divergence of the block.
 	for _, th := range o.Queries {
 		for _, q := range th {
 			if q.Panic != "" {
-				out = append(out, Violation{Kind: "panic", Signature: fmt.Sprintf("panic|query %s|%s", q.Name, q.Top),
-					Detail: fmt.Sprintf("handler %s panicked: %s\n%s", q.Name, q.Panic, q.Stack)})
+				v := Violation{Kind: "handler-panic", Signature: fmt.Sprintf("handler-panic|%s|%s", q.Name, q.Top),
+					Detail: fmt.Sprintf("handler %s panicked: %s\n%s", q.Name, q.Panic, q.Stack)}
+				if Strict {
+					v.Kind = "panic"
+				}
+				out = append(out, v)
 			}
 		}
 	}
@@ -549,9 +570,6 @@ func (in *Instance) Judge(res *sched.Result, o *Obs) []Violation {
 		out = append(out, Violation{Kind: "panic", Signature: "panic|next-block", Detail: "the empty block after the scenario block: " + o.Next})
 		return out
 	}
-	if len(out) > 0 {
-		return out
-	}
 	if f, a, b := FirstDiff(in.Ref, o); f != "" {
 		out = append(out, Violation{Kind: "divergence", Signature: fmt.Sprintf("divergence|%s|%s", f, qnames()),
 			Detail: fmt.Sprintf("block observations differ from the query-free run in %s:\n  query-free: %s\n  with queries: %s\n--- query-free run\n%s--- this run\n%s", f, a, b, in.Ref.BlockString(), o.BlockString())})
@@ -559,11 +577,18 @@ func (in *Instance) Judge(res *sched.Result, o *Obs) []Violation {
 	return out
 }
 
-// funcsOf strips the file:line part of site names, keeping "file (func)".
+// funcOfSite keeps the function of a site name "file:line (func)".
+func funcOfSite(s string) string {
+	if i := strings.Index(s, " ("); i >= 0 && strings.HasSuffix(s, ")") {
+		return s[i+2 : len(s)-1]
+	}
+	return s
+}
+
 func funcsOf(sites []string) []string {
 	var out []string
 	for _, s := range sites {
-		out = append(out, s)
+		out = append(out, funcOfSite(s))
 	}
 	return out
 }
